@@ -108,7 +108,6 @@ def alphabets(tier: str):
     full_temps = [A, AS]
     full_resp = [((EQG, A),), ((GM2, AS),), ((EQG, A1), (GM2, A)), ((FOO, AX),)]
     if not quick:
-        full_grants += [((EQG, AX),), ((GM2, A1),)]
         full_temps += [A1]
         full_resp += [(), ((GM2, A),)]
     full_lists = ((EQG, GM2), (EQG, GM2, "ProxyFoo"), ("ProxyBar", FOO, "ProxyFoo"))
